@@ -529,7 +529,11 @@ func normaliseScript(s []model.Event) []model.Event {
 	for _, e := range s {
 		if e.Kind == "key" {
 			k := hk{e.Handler, e.Code}
-			if e.Value == 1 {
+			if e.Value == 2 {
+				if !down[k] {
+					continue
+				}
+			} else if e.Value == 1 {
 				if down[k] {
 					continue
 				}
